@@ -445,6 +445,8 @@ def run(model, rep, tier):
 
 
 WITNESSES = [
+    {"id": "c15-twin-dnskeys-added-from-a-list", "rule": "R-15.12", "file": "dns/dnssec.py", "expect": "silent",
+     "old": "            for _, dnskey in keys:\n                _txn.add(zone.origin, dnskey_ttl, dnskey)", "new": "            dnskeys = [k[1] for k in keys]\n            for dnskey in dnskeys:\n                _txn.add(zone.origin, dnskey_ttl, dnskey)"},
     {"id": "c15-dnskeys-added-only-when-ttl-defaulted", "rule": "R-15.12", "file": "dns/dnssec.py", "expect": "fires",
      "old": "            for _, dnskey in keys:\n                _txn.add(zone.origin, dnskey_ttl, dnskey)", "new": "                for _, dnskey in keys:\n                    _txn.add(zone.origin, dnskey_ttl, dnskey)"},
     {"id": "c15-nsec-bitmap-ignores-delegation", "rule": "R-15.9", "file": "dns/dnssec.py", "expect": "fires",
